@@ -331,7 +331,11 @@ func harnessAPI(name string) (IntrinsicFn, bool) {
 				return nil
 			}
 			in.failLabel = label
-			panic(&pathEnd{kind: "assertfail", msg: label})
+			msg := label
+			if strings.HasPrefix(label, "locksets:") && in.raceDesc != "" {
+				msg = label + " — " + in.raceDesc
+			}
+			panic(&pathEnd{kind: "assertfail", msg: msg})
 		}, true
 	case "verifCase":
 		return func(in *Interp, _ *frame, _ *ssa.Function, args []Value, _ tokenPos) Value {
@@ -376,6 +380,20 @@ func harnessAPI(name string) (IntrinsicFn, bool) {
 		return func(in *Interp, _ *frame, _ *ssa.Function, args []Value, _ tokenPos) Value {
 			in.drawCursor = int(args[0].(Sc).T.val)
 			return nil
+		}, true
+	case "verifRegexpEither":
+		return func(in *Interp, _ *frame, _ *ssa.Function, args []Value, pos tokenPos) Value {
+			p1, ok1 := args[1].(*Str).Concrete()
+			p2, ok2 := args[2].(*Str).Concrete()
+			if !ok1 || !ok2 {
+				in.unsupported("verifRegexpEither needs constant expressions")
+			}
+			r1 := in.newRegexp(p1, args[1].(*Str), pos).(PtrV)
+			r2 := in.newRegexp(p2, args[2].(*Str), pos).(PtrV)
+			rm := r1.obj.val.(OpaqueV).Data.(*reModel)
+			rm.sel = args[0].(Sc).T
+			rm.alt = r2.obj.val.(OpaqueV).Data.(*reModel)
+			return r1
 		}, true
 	case "verifSentMessages":
 		return func(in *Interp, _ *frame, fn *ssa.Function, args []Value, _ tokenPos) Value {
